@@ -259,8 +259,42 @@ pub fn replay_pair(sub: &'static str) -> impl Fn(&Value, &Env) -> CaseResult {
     }
 }
 
+fn fuzz_run(env: &Env, st: &mut Stats) -> Vec<Failure> {
+    crate::fuzzing::campaign("eval_diff", env, st, 240)
+}
+
+fn fuzz_replay(case: &Value, env: &Env) -> CaseResult {
+    crate::fuzzing::replay("eval_diff", case, env)
+}
+
 fn replay_cross(case: &Value, env: &Env) -> CaseResult {
     replay_pair("cross")(case, env)
+}
+
+/// Token- and document-level minimisation of a failing pair (replayed by the
+/// `cross` sub-check, which takes an explicit expression and document).
+pub fn minimise(f: &Failure, env: &Env) -> Option<(Failure, Value)> {
+    let e = f.case["expression"].as_str()?;
+    let d = f.case["document"].as_str()?;
+    let check = |e: &str, d: &str| -> Option<String> {
+        let case = json!({"expression": e, "document": d});
+        match replay_pair("cross")(&case, env) {
+            Err(fl) if !fl.sig.starts_with("harness-") => Some(fl.sig),
+            _ => None,
+        }
+    };
+    if check(e, d).as_deref() != Some(f.sig.as_str()) {
+        return None;
+    }
+    let (e2, d2) = crate::minimise::minimise_pair(e, d, &f.sig, &check);
+    let case = json!({"expression": e2, "document": d2});
+    match replay_pair("cross")(&case, env) {
+        Err(mut fl) => {
+            fl.message = format!("{} [minimised from a case of sub-check {}]", fl.message, f.sub);
+            Some((fl, json!({"kind": "case", "case": case})))
+        }
+        Ok(()) => None,
+    }
 }
 
 pub fn property() -> Property {
@@ -272,6 +306,7 @@ pub fn property() -> Property {
             "numbers are drawn from a well-separated pool and compared by value".into(),
             "slice step 0 on a non-array subject may be an error or null".into(),
         ],
+        minimise: Some(minimise),
         subs: vec![
             Sub::Bytes(BytesSub {
                 name: "gen",
@@ -279,8 +314,10 @@ pub fn property() -> Property {
                 max_len: 1200,
                 quick: Budget { threads: 8, cases: 4000 },
                 thorough: Budget { threads: 16, cases: 100_000 },
+                keep_unreproducible: false,
             }),
             Sub::Custom(CustomSub { name: "cross", run: cross, replay: replay_cross }),
+            Sub::Custom(CustomSub { name: "fuzz-eval_diff", run: fuzz_run, replay: fuzz_replay }),
         ],
     }
 }
